@@ -512,6 +512,8 @@ func ruleNilProducer(p *Prog, l *Ledger, tier string) {
 			key := l.Key(rule, fname, what, descOf(v))
 			if a.nonNil(fn, v, a.at[ins]) {
 				l.Prove(rule, fname, key, p.Pos(ins.Pos()), "stored element is non-nil")
+			} else if st, ok := ins.(*ssa.Store); ok && orderWriteBack(p, fn) == st {
+				l.Prove(rule, fname, key, p.Pos(ins.Pos()), "the cue of pair k of a slice of pairs each filled from an element of the list itself (M3's sorted-pairs form): the list's own elements come back")
 			} else if st, ok := ins.(*ssa.Store); ok && insertPlaceholder(st) {
 				l.Prove(rule, fname, key, p.Pos(ins.Pos()), "nil placeholder of the insert idiom append(X, nil); copy(X[i+1:], X[i:]); X[i] = v: overwritten before the list is read")
 			} else {
@@ -524,7 +526,7 @@ func ruleNilProducer(p *Prog, l *Ledger, tier string) {
 				case *ssa.MapUpdate:
 					check(ins, x.Value, "map value")
 				case *ssa.Store:
-					if ia, ok := x.Addr.(*ssa.IndexAddr); ok && isElemContainer(ia.X.Type()) {
+					if ia, ok := x.Addr.(*ssa.IndexAddr); ok && isElemContainer(ia.X.Type()) && !elemIsPtrToBasic(ia.X.Type()) {
 						check(ins, x.Val, "slice element")
 					}
 				}
